@@ -31,6 +31,18 @@ CHECKS = {
    text="TLC proves the round-trip laws of Codec.tla on a small exhaustive domain (ParseBySize/ParseByCount(Partition(ids)) = ids, block count ceil(n/cap), equal block lengths and zero padding, split/join, int<->bytes, xor involution, hex and UTF-8 well-formedness; sizes 1..3, capacities 1..4, n <= 4/6, identifiers over {0,1} bytes not all zero) and exhibits the two excluded cases as counterexamples. The driver calls the real toolkit.database_utils / bytes_utils / list_utils functions over the property's ranges (sizes 1..40, capacities 1..70, n 0..300, ints to 512 bits, JSON database conversion and hex/int/raw/utf8 outputs, plus all small cases); each of the 4.2e4 (quick) / 2.7e5 (thorough) calls and real-code round trips is judged independently by TLC against Codec.tla (Trace_Codec).",
    ref="5/C17", note="trusted: harness conversions (bytes<->lists, int<->bit lists, str<->code points), json.load. The large ranges are sampled; only the small domain is exhaustive. utf8 output judged relationally.",
    technique="TLA+ functional reference model; TLC-checked round-trip laws with exhibited exclusions; TLC trace validation of recorded calls and real-code round trips"),
+ "C15": dict(level="model_checking",
+   text="TLC model-checks spec/prim/Feistel.tla (the unbalanced bit Feistel network and the 3-round byte Feistel as the code wires them, round function/PRF abstract) over every round function for n <= 4 (2 rounds) and n <= 3 (4 rounds), drawn round functions for n <= 8/10 at 10 rounds, every PRF graph of the byte Feistel over a tiny alphabet and every single round, checking complete/length/one-to-one/onto/inverse on the computed tables; instances that must fail (odd rounds on odd n, n = 1) are required to fail. The real BitwiseFFX, BitwiseFPEPRP, LubyRackoffPRP and HmacLubyRackoffPRP are driven with single calls at widths 2..2100, complete tables for n = 2..9/12, right- and wrong-length keys/messages, and sampled message sets for 2..64-byte messages (all 65536 2-byte messages in thorough). Each recorded call or table is judged by TLC against Trace_Feistel: Layer A is the property; Layer B re-runs the network with the round function read from the recorded round()/PRF/hmac calls and is reported as drift.",
+   ref="5/C15", note="hmac/hashlib trusted (round function and PRF abstract, graphs read from the recording via attribute proxies); widths above 12 and 4..64-byte messages sampled; wiring changes that keep the map a length-preserving bijection show as DRIFT; pseudo-randomness itself is not checked",
+   technique="TLA+ Feistel model with abstract round function model-checked by TLC over all/drawn round functions; TLC trace validation of recorded calls and complete tables of the real ciphers"),
+ "C01": dict(level="model_checking",
+   text="Layer B (Layouts.tla: the nine index layouts as functions of the length profile and numeric configuration, literal ceilings/logarithms/case splits) is explored by TLC through MC_Profiles for every scheme x grid configuration over all length profiles up to the bounds (one per multiset): NoRaiseOnValid, ShapeFunctionOfPi, UniformTables. Every valid profile TLC reaches (plus a shuffled keyword order, plus random larger profiles with default configurations) is instantiated as a concrete valid database and run through the real KeyGen/EDBSetup/TokenGen/Search for every keyword; each case is one record judged by TLC against SSEFunctional (Trace_SSE): setup must not raise, each result must be the posting list in order (as a set for DP17). The projected index shape must equal Layouts!Shape (DRIFT otherwise).",
+   ref="5/C01", note="ideal cryptography in the layout model; SSE-1 capacity read as N < param_s; SSE-2 param_n fitted; bounds: <=3-5 keywords, N <= 8..20 per scheme, tiny block parameters so that every case boundary is inside the bounds",
+   technique="TLA+ layout model explored by TLC over all small length profiles; every explored case replayed on the real scheme; TLC trace validation"),
+ "C02": dict(level="model_checking",
+   text="Same engine and cases as C01, searching keywords that are NOT in the database: random ones and ones adversarially close to a stored keyword (prefix, suffix, extension by \\x01 and by \\x00, one-bit flip, doubled), for every scheme x grid configuration x length profile explored by TLC in MC_Profiles. Each case is judged by TLC against SSEFunctional (Trace_SSE): no exception and an empty result (CorrectAbsent / SearchNoRaise:absent).",
+   ref="5/C02", note="as C01; absent keywords respect the scheme's keyword-length limit and have no leading NUL",
+   technique="TLA+ layout model explored by TLC; explored cases replayed with absent keywords; TLC trace validation"),
 }
 ALL = ["C%02d" % i for i in range(1, 21)]
 def main():
